@@ -395,3 +395,42 @@ func ExportedDiff(a, b any) (string, string) {
 	}
 	return "", ""
 }
+
+// ExportedNoBase is the signature of the exported fields without any embedded BaseLayer: what a serializer reads.
+func ExportedNoBase(v any) string {
+	w := &walker{seen: map[uintptr]bool{}, exported: true, skipBase: true}
+	w.walk(reflect.ValueOf(v), 0)
+	return w.sb.String()
+}
+
+// ExportedNoBaseDiff returns (bare path, description) of the first differing leaf under ExportedNoBase.
+func ExportedNoBaseDiff(a, b any) (string, string) {
+	wa := &walker{seen: map[uintptr]bool{}, lines: true, exported: true, skipBase: true}
+	wa.walk(reflect.ValueOf(a), 0)
+	wb := &walker{seen: map[uintptr]bool{}, lines: true, exported: true, skipBase: true}
+	wb.walk(reflect.ValueOf(b), 0)
+	la, lb := wa.out, wb.out
+	for i := 0; i < len(la) && i < len(lb); i++ {
+		if la[i] != lb[i] {
+			pa := la[i]
+			if j := strings.Index(pa, " = "); j >= 0 {
+				pa = pa[:j]
+			}
+			return stripIdx(pa), fmt.Sprintf("%s (%s | %s)", pa, trunc(la[i]), trunc(lb[i]))
+		}
+	}
+	if len(la) != len(lb) {
+		return "<shape>", fmt.Sprintf("leaf count %d vs %d", len(la), len(lb))
+	}
+	return "", ""
+}
+
+// ExportedNoBaseLines returns the "path = value" leaf lines of ExportedNoBase.
+func ExportedNoBaseLines(a any) []string {
+	wa := &walker{seen: map[uintptr]bool{}, lines: true, exported: true, skipBase: true}
+	wa.walk(reflect.ValueOf(a), 0)
+	return wa.out
+}
+
+// StripIdx removes list indices from a leaf path.
+func StripIdx(p string) string { return stripIdx(p) }
